@@ -15,7 +15,7 @@
    [ia_run copy st s evs]: the interceptor when the caller owns and re-uses its buffers; [copy = true] is
    the code with the batch buffer holding copies. *)
 From IV Require Import Base.Word Model.Flexfec Model.Flexfec2 Spec.FlexfecSpec Proofs.FlexfecProofs
-  Proofs.FlexfecMore.
+  Proofs.FlexfecMore Check.C14Check Proofs.FlexfecOracle.
 
 (* ---- the scratch buffer ---- *)
 
@@ -75,6 +75,16 @@ Theorem C14_clamp_conservative : forall e media n, n <= 110 -> encode_fec2 e med
 Proof. exact encode_fec2_small. Qed.
 Print Assumptions C14_clamp_conservative.
 
+(* ... and the code before the clamp (Model/Flexfec.v's encode_fec / i_run) is refuted by n = 111: EncodeFec
+   panics, the interceptor's second Write (which completes the batch of 2) panics; with the clamp there
+   are two repair packets *)
+Theorem C14_unclamped_111_refuted :
+  snd (encode_fec (new_encoder 115 7) two_pkts 111) = Panic /\
+  (exists r0 r1, snd (encode_fec2 (new_encoder 115 7) two_pkts 111) = Ok (Some [r0; r1])) /\
+  i_run (new_icpt 2 111 115 7 [17; 34; 51; 68]) two_pkts = [Ok [OMedia (hdr12 128 7 ++ [9])]; Panic].
+Proof. exact unclamped_111_refuted. Qed.
+Print Assumptions C14_unclamped_111_refuted.
+
 (* accepted = 1..109 consecutive packets, for EVERY n >= 0 *)
 Theorem C14_accepts_any_n : forall e media n, enc_inv e -> accepts2 media n ->
   exists e' rs, encode_fec2 e media n = (e', Ok (Some rs)).
@@ -131,6 +141,34 @@ Theorem C14_interceptor_reference_refuted :
   (exists p, nth 1 (ia_run false [] alias_s0 alias_evs) Panic = Ok [OMedia p]).
 Proof. exact ia_reference_refuted. Qed.
 Print Assumptions C14_interceptor_reference_refuted.
+
+(* ---- the specification oracle (Check/C14Check.v) is sound for the Prop-level property ---- *)
+
+(* code 0 on the observed repair packets of one batch: every repair packet parses, names only packets of
+   the batch and recovers each of them (Prop-level [recovers]); every media packet is named by some repair
+   packet; FEC payload type and SSRC; sequence numbers consecutive from the previous batch *)
+Theorem C14_oracle_sound_batch : forall pt ssrc last n flags media (reps : list orep),
+  batch_code pt ssrc last n flags media reps = 0%nat ->
+  (forall r, In r reps ->
+     exists h, parse03 (o_payload r) = Some h /\
+               forall pos, In pos (f_pos h) -> 0 <= pos < zlen media /\ recovers media (o_payload r) h pos) /\
+  (forall i, 0 <= i < zlen media ->
+     exists r h, In r reps /\ parse03 (o_payload r) = Some h /\ In i (f_pos h)) /\
+  (forall r, In r reps -> o_pt r = pt /\ o_ssrc r = ssrc) /\
+  sn_consecutive last (map o_sn reps) = true.
+Proof. exact batch_code_sound. Qed.
+Print Assumptions C14_oracle_sound_batch.
+
+(* code 0 on an observed history: no call panicked (whatever n), every answered call with n >= 1 has the
+   property, no describable batch (1..109 consecutive packets, any n >= 1) was declined *)
+Theorem C14_oracle_sound_history : forall pt ssrc bs last,
+  enc_spec pt ssrc last bs = 0%nat ->
+  forall media flags n kind reps, In (media, flags, n, (kind, reps)) bs ->
+    kind <> 2 /\
+    (kind = 1 -> 1 <= n -> batch_prop pt ssrc media reps) /\
+    ~ (kind = 0 /\ 1 <= zlen media <= 109 /\ 1 <= n /\ media_consecutive media = true).
+Proof. exact enc_spec_sound. Qed.
+Print Assumptions C14_oracle_sound_history.
 
 (* ---- non-vacuity ---- *)
 (* three packets (plain; padding inside the payload; PaddingSize 5), n = 2^32 - 1, a pool that hands out
